@@ -229,7 +229,32 @@ def zoo_db(path, page_size, rnd, n=120):
     con.execute("CREATE TABLE z7(code TEXT, v, UNIQUE(code DESC), PRIMARY KEY(code)) WITHOUT ROWID")
     con.execute("CREATE TABLE z8(a, b, c, UNIQUE(a, b DESC), PRIMARY KEY(a DESC, b)) WITHOUT ROWID")
     con.execute("CREATE INDEX z8c ON z8(c)")
+    # identifiers spelled differently in the definition, in the constraints and in the indexes
+    con.execute('CREATE TABLE Z9(Alpha TEXT, beta, "Gamma" INT, Delta, PRIMARY KEY(GAMMA, alpha)) WITHOUT ROWID')
+    con.execute("CREATE INDEX Z9d ON z9(DELTA, Beta)")
+    con.execute("CREATE TABLE z10(Name TEXT PRIMARY KEY, Val, UNIQUE(VAL, name)) WITHOUT ROWID")
+    con.execute("CREATE TABLE Z12(Id INTEGER PRIMARY KEY, Name TEXT UNIQUE, vAL)")
+    con.execute("CREATE INDEX z12v ON Z12(Val, NAME)")
+    # a numeric primary key holding integers and non-integral reals with the same integer part
+    con.execute("CREATE TABLE z11(k PRIMARY KEY, v) WITHOUT ROWID")
+    con.execute("CREATE INDEX z11v ON z11(v)")
+    # several key columns: one with a named collation followed by columns with none (BINARY), values that the
+    # collations order differently
+    con.execute("CREATE TABLE z13(a TEXT COLLATE NOCASE, b TEXT, c TEXT COLLATE RTRIM, d TEXT)")
+    con.execute("CREATE INDEX z13ab ON z13(a, b)")
+    con.execute("CREATE INDEX z13cb ON z13(c, b DESC, d)")
+    con.execute("CREATE INDEX z13x ON z13(d COLLATE NOCASE, b, a COLLATE BINARY)")
+    con.execute("CREATE TABLE z14(a TEXT COLLATE NOCASE, b TEXT, c, PRIMARY KEY(a, b)) WITHOUT ROWID")
+    con.execute("CREATE INDEX z14c ON z14(c, b)")
     con.execute("BEGIN")
+    for i in range(n):
+        con.execute("INSERT INTO z13 VALUES(?,?,?,?)", (rnd.choice(TEXTPOOL[:12]), rnd.choice(TEXTPOOL[:12]), rnd.choice(TEXTPOOL[:12]), rnd.choice(TEXTPOOL[:12])))
+        con.execute("INSERT OR IGNORE INTO z14 VALUES(?,?,?)", (rnd.choice(TEXTPOOL[:12]), rnd.choice(TEXTPOOL[:12]), i % 3))
+        con.execute("INSERT OR IGNORE INTO Z9 VALUES(?,?,?,?)", (rnd.choice(TEXTPOOL) + str(i % 7), i, i // 3, rnd.choice([None, i % 5, "d"])))
+        con.execute("INSERT OR IGNORE INTO z10 VALUES(?,?)", (rnd.choice(TEXTPOOL) + str(i), i % 6))
+        con.execute("INSERT OR IGNORE INTO Z12 VALUES(?,?,?)", (i * 3 - 20, rnd.choice(TEXTPOOL) + str(i), i % 4))
+        k = (i // 4) - 10
+        con.execute("INSERT OR IGNORE INTO z11 VALUES(?,?)", ([k, k + 0.5, float(k) + 0.25, -k - 0.75][i % 4], i % 5))
     pool = TEXTPOOL
     for i in range(n):
         try:
